@@ -57,6 +57,10 @@ def _record(ob: Obligation, verdict, model, stats, want_smt2=False) -> Dict:
                "verdict": "vacuous" if verdict == "unsat" else "reachable", "ms": stats.get("ms", 0), "hyps": len(ob.hyps),
                "instances": stats.get("instances", 0), "backend": stats.get("backend", ""), "meta": {}}
         return rec
+    if verdict == "sat" and (ob.meta or {}).get("refutable") == "0":
+        verdict = "unknown"
+        stats = dict(stats)
+        stats["reason"] = "a counter-model exists for the instantiated query, but a hypothesis lies outside the fragment for which instantiation is complete (" + str(ob.meta.get("nonfragment")) + "): not reported as a failure"
     rec = {
         "name": ob.name,
         "path": ob.path,
